@@ -233,7 +233,7 @@ namespace vf
     /// send description before running the operation under test (so a crash still has one)
     void announce()
     {
-      if(desc_sent || fd < 0) return; desc_sent = true;
+      if(fd < 0) return; desc_sent = true;   // may be called repeatedly (histories): the parent keeps the last one
       J m = J::obj(); m.set("desc", desc); m.set("nt", nontrivial); m.set("op", op);
       J l = J::arr(); for(auto& x : labels) l.add(x); m.set("labels", l);
       J ex = J::obj(); for(auto& kv : excl_hits) ex.set(kv.first, kv.second); m.set("excl", ex);
@@ -317,7 +317,7 @@ namespace vf
       catch(Discard& d) { verdict = "discard"; sym = d.why; }
       catch(std::exception& e) { verdict = "fail"; sym = std::string("exception:") + typeid(e).name() + ":" + e.what(); }
       catch(...) { verdict = "fail"; sym = "exception:unknown"; }
-      ctx.announce();
+      if(!ctx.desc_sent || verdict != "fail") ctx.announce();
       J m = J::obj(); m.set("verdict", verdict); m.set("sym", sanitize_sym(sym)); m.set("overrun", (long long)tp.overrun);
       std::string s = "V" + m.str() + "\n"; (void)!write(fd[1], s.data(), s.size());
       _exit(0);
@@ -352,6 +352,7 @@ namespace vf
       J j; if(!J::parse(line.substr(1), j)) continue;
       if(line[0] == 'D')
       {
+        r.labels.clear(); r.excl.clear();   // a later announcement replaces the earlier one
         if(auto* d = j.get("desc")) r.desc_json = d->str();
         if(auto* n = j.get("nt")) r.nontrivial = n->b;
         r.op = j.gets("op");
@@ -425,14 +426,14 @@ namespace vf
   inline int main_impl(int argc, char** argv, const std::vector<Target>& targets)
   {
     std::string tname, out_path, replay_path, replay_dir = ".", excl_s;
-    long cases = 1000; int max_size = 100; unsigned long long seed = 1; bool list = false;
+    long cases = 1000; int max_size = 100; unsigned long long seed = 1; bool list = false; double shrink_budget_s = 40.0;
     for(int k = 1; k < argc; ++k)
     {
       std::string a = argv[k]; auto nxt = [&]() -> std::string { return (k + 1 < argc) ? argv[++k] : ""; };
       if(a == "--target") tname = nxt(); else if(a == "--cases") cases = atol(nxt().c_str());
       else if(a == "--max-size") max_size = atoi(nxt().c_str()); else if(a == "--seed") seed = strtoull(nxt().c_str(), nullptr, 10);
       else if(a == "--out") out_path = nxt(); else if(a == "--replay") replay_path = nxt();
-      else if(a == "--replay-dir") replay_dir = nxt(); else if(a == "--exclude") excl_s = nxt(); else if(a == "--list") list = true; else if(a == "--tier") (void)nxt();
+      else if(a == "--replay-dir") replay_dir = nxt(); else if(a == "--exclude") excl_s = nxt(); else if(a == "--list") list = true; else if(a == "--tier") (void)nxt(); else if(a == "--shrink-budget") shrink_budget_s = atof(nxt().c_str());
     }
     if(list) { for(auto& t : targets) printf("%s\n", t.name.c_str()); return 0; }
     std::set<std::string> excluded; { std::stringstream ss(excl_s); std::string x; while(std::getline(ss, x, ',')) if(!x.empty()) excluded.insert(x); }
@@ -467,6 +468,7 @@ namespace vf
       setenv("RC_PARAMS", params.c_str(), 1);
     }
     Stats st;
+    auto t_fail = std::chrono::steady_clock::now();
     bool have_fail = false; std::string fail_key; Result fail_res; std::vector<uint32_t> fail_tape; int fail_size = 0; long shrink_steps = 0;
 
     auto prop = [&]()
@@ -489,12 +491,13 @@ namespace vf
             for(auto& l : r.labels) if(!st.sample_by_label.count(l) && r.desc_json.size() < 6000) st.sample_by_label[l] = r.desc_json;
           }
         }
-        if(r.verdict == "fail") { have_fail = true; fail_key = sym_key(r); fail_res = r; fail_tape = tape; fail_size = size; RC_FAIL(r.sym); }
+        if(r.verdict == "fail") { have_fail = true; t_fail = std::chrono::steady_clock::now(); fail_key = sym_key(r); fail_res = r; fail_tape = tape; fail_size = size; RC_FAIL(r.sym); }
       }
       else
       {
         // shrinking phase: a candidate counts only if it fails with the same signature key
         shrink_steps++;
+        if(std::chrono::duration<double>(std::chrono::steady_clock::now() - t_fail).count() > shrink_budget_s) return;  // budget used up: keep the best so far
         if(r.verdict == "fail" && sym_key(r) == fail_key) { fail_res = r; fail_tape = tape; fail_size = size; RC_FAIL(r.sym); }
       }
     };
